@@ -493,12 +493,9 @@ type amtPath struct {
 	name string
 	v1   bool
 	body func(n *big.Int, dst string) *AJ
-	// lossy: known to go through float64 (the monitor is the same; only the tag differs)
-	floatForm bool
 }
 
 const amtScript = "vars {\n account $dst\n monetary $m\n}\nsend $m (\n source = @world\n destination = $dst\n)"
-const amtScriptNumber = "vars {\n account $dst\n number $n\n}\nsend [USD $n] (\n source = @world\n destination = $dst\n)"
 
 func amtPaths() []amtPath {
 	post := func(n *big.Int, dst string) *AJ {
@@ -513,7 +510,7 @@ func amtPaths() []amtPath {
 		{name: "v2.script.monetary-amount-string", body: func(n *big.Int, dst string) *AJ {
 			return ajobj("script", ajobj("plain", ajstr(amtScript), "vars", ajobj("dst", ajstr(dst), "m", ajobj("asset", ajstr("USD"), "amount", ajstr(n.String())))))
 		}},
-		{name: "v2.script.monetary-amount-number", floatForm: true, body: func(n *big.Int, dst string) *AJ {
+		{name: "v2.script.monetary-amount-number", body: func(n *big.Int, dst string) *AJ {
 			return ajobj("script", ajobj("plain", ajstr(amtScript), "vars", ajobj("dst", ajstr(dst), "m", ajobj("asset", ajstr("USD"), "amount", jbig(n)))))
 		}},
 		{name: "v1.script.var-string", v1: true, body: func(n *big.Int, dst string) *AJ {
@@ -616,9 +613,6 @@ func (s *sweep) amounts(n int, replay []amtCase) {
 		cs := L("amount", Q(p.name), amt.String())
 		viol := func(what string, exp, got string) {
 			tag := "[amount-readback]"
-			if p.floatForm {
-				tag = "[scriptv1-float64-amount]"
-			}
 			o.Violation("C36", cs, fmt.Sprintf("amount %s posted through %s: %s expected %s got %s %s", amt, p.name, what, exp, got, tag))
 		}
 		prefix := "/v2/amt"
